@@ -139,6 +139,78 @@ def references(cfg):
     return {(t.name, s): run_bldfm_single(cfg, t, met_index=s) for t in cfg.towers for s in range(cfg.met.n_timesteps)}
 
 
+def cli_runs(chk, cfg_cache, ref_cache):
+    """drive bldfm.cli.cmd_run on a YAML file; the single runs it performs are captured where the CLI calls them"""
+    import argparse
+    import dataclasses
+    import logging
+    import yaml
+    import bldfm.cli as cli
+    from bldfm import config as rtcfg
+    from bldfm import _verif
+
+    n = 0
+    for ck, cfg in cfg_cache.items():
+        for threads in (1, 2):
+            raw = {
+                "domain": {k: v for k, v in dataclasses.asdict(cfg.domain).items() if v is not None and k not in ("output_levels",)},
+                "towers": [{"name": t.name, "lat": t.lat, "lon": t.lon, "z_m": t.z_m} for t in cfg.towers],
+                "met": {k: v for k, v in dataclasses.asdict(cfg.met).items() if v is not None},
+                "solver": dataclasses.asdict(cfg.solver),
+                "parallel": {"num_threads": threads, "max_workers": 1, "use_cache": False},
+            }
+            raw["domain"]["modes"] = list(raw["domain"]["modes"])
+            raw["domain"].pop("full_output", None)
+            raw["solver"] = {k: v for k, v in raw["solver"].items() if v is not None}
+            path = os.path.join(os.getcwd(), "cli_%d_%d_%d.yaml" % (ck[0], ck[1], threads))
+            with open(path, "w") as f:
+                yaml.safe_dump(raw, f)
+            captured = []
+            orig = cli.run_bldfm_single
+
+            def capture(config, tower, met_index=0, **kw):
+                out = orig(config, tower, met_index=met_index, **kw)
+                captured.append((tower.name, met_index, rtcfg.NUM_THREADS, out))
+                return out
+
+            cli.run_bldfm_single = capture
+            sc = {"kind": "cli", "towers": ck[0], "steps": ck[1], "num_threads": threads}
+            chk.case(json.dumps(["cli", ck, threads]))
+            names = [t.name for t in cfg.towers]
+            try:
+                _verif.emit("ext_serial_begin", kind="cli", towers=names, n_time=ck[1])
+                cli.cmd_run(argparse.Namespace(config=path, dry_run=False, plot=False))
+                _verif.emit("ext_serial_end", keys=[c[0] for c in captured], lens=[1 for _ in captured])
+            except Exception as ex:
+                chk.violation("bldfm run raised %r" % ex, sc, klass={"check": "cli_exception"})
+                continue
+            finally:
+                cli.run_bldfm_single = orig
+                rtcfg.NUM_THREADS = 1
+                logging.getLogger("bldfm").setLevel(logging.ERROR)
+                logging.getLogger().setLevel(logging.ERROR)
+            n += 1
+            want = [(nm, s_) for nm in names for s_ in range(ck[1])]
+            if [(c[0], c[1]) for c in captured] != want:
+                chk.violation("bldfm run performed the single runs %s, expected towers outer / steps inner %s" % ([(c[0], c[1]) for c in captured], want), sc, klass={"check": "cli_order"})
+                continue
+            if any(c[2] != threads for c in captured):
+                chk.violation("bldfm run did not apply parallel.num_threads=%d before solving (saw %s)" % (threads, sorted({c[2] for c in captured})), sc, klass={"check": "cli_threads"})
+                continue
+            refs = ref_cache[ck]
+            for nm, s_, _, out in captured:
+                ref = refs[(nm, s_)]
+                if threads == 1:
+                    bad = same_entry(out, ref)
+                else:
+                    d = max(float(np.max(np.abs(np.asarray(out[k]) - np.asarray(ref[k])))) / max(float(np.max(np.abs(np.asarray(ref[k])))), 1e-300) for k in ("conc", "flx"))
+                    bad = ["conc/flx (%.2e)" % d] if d > 1e-12 else [k for k in ("tower_name", "timestamp", "params") if out[k] != ref[k]]
+                if bad:
+                    chk.violation("bldfm run: the run for (%s, %d) differs from run_bldfm_single in %s" % (nm, s_, bad), sc, klass={"check": "cli_entry"})
+                    break
+    return n
+
+
 def main():
     import bldfm
     from bldfm import config as rtcfg
@@ -166,7 +238,7 @@ def main():
         c = e["cfg"]
         key = (c["nt"], c["ns"], c["nw"], c["strat"], c["pt"])
         shapes.setdefault(key, []).append(list(e["order"]))
-    keys = sorted(shapes)
+    keys = sorted(k for k in shapes if k[3] in ("towers", "time", "both"))   # "serial" and "cli" are driven separately below
     if t == "quick":
         # all shapes of the quick model; at most 2 completion orders each
         per = 2
@@ -207,8 +279,13 @@ def main():
         for pt in (1, 4):
             rtcfg.NUM_THREADS = pt
             sc = {"kind": "serial", "towers": ck[0], "steps": ck[1], "parent_threads": pt}
+            from bldfm import _verif
+
+            names_ = [t_.name for t_ in cfg.towers]
             try:
+                _verif.emit("ext_serial_begin", kind="serial", towers=names_, n_time=ck[1])
                 res = run_bldfm_multitower(cfg)
+                _verif.emit("ext_serial_end", keys=list(res), lens=[len(v) for v in res.values()])
                 ser = {t_.name: run_bldfm_timeseries(cfg, t_) for t_ in cfg.towers}
             finally:
                 rtcfg.NUM_THREADS = 1
@@ -225,6 +302,8 @@ def main():
                         d = max(float(np.max(np.abs(np.asarray(a[k]) - np.asarray(b[k])))) / max(float(np.max(np.abs(np.asarray(b[k])))), 1e-300) for k in ("conc", "flx"))
                         if d > 1e-12 or a["timestamp"] != b["timestamp"] or a["tower_name"] != b["tower_name"]:
                             chk.violation("run_bldfm_multitower with 4 numerical threads differs from the single run by %.3e at [%s][%d]" % (d, n, s), sc, klass={"check": "serial_threads"})
+    # the command-line loop (bldfm run config.yaml): towers outer, steps inner, one single run each, runtime settings applied
+    nruns += cli_runs(chk, cfg_cache, ref_cache)
     # result caching on: a directory pre-populated by runs with other levels / another grid must not change anything
     work = os.getcwd()
     shutil.rmtree(os.path.join(work, ".bldfm_cache"), ignore_errors=True)
